@@ -417,13 +417,93 @@ class Translator:
                 bad(n, "too many positional arguments")
             for (py, _, _), a in zip(table, n.args):
                 given[py] = a
+            spread = {}
             for kw in n.keywords:
-                if kw.arg is None or kw.arg in given or kw.arg not in [py for py, _, _ in table]:
+                if kw.arg is None and ctor == "gene":
+                    # Gene(..., **fields): a field dict by name, as a literal, or as a comprehension over a constant tuple
+                    if isinstance(kw.value, ast.Name) and env["locals"].get(kw.value.id, (None, None))[1] == "genedict":
+                        more = dict(env["locals"][kw.value.id][0])
+                    elif isinstance(kw.value, (ast.Dict, ast.DictComp)):
+                        more = self.field_dict(kw.value, env, n)
+                    else:
+                        bad(n, f"** of {ast.unparse(kw.value)[:40]} in {n.func.id}(...)")
+                    for k_ in more:
+                        if k_ in spread or k_ in given:
+                            bad(n, f"field {k_} given twice to {n.func.id}")
+                    spread.update(more)
+                    continue
+                if kw.arg is None or kw.arg in given or kw.arg in spread or kw.arg not in [py for py, _, _ in table]:
                     bad(n, f"keyword {kw.arg} of {n.func.id}")
                 given[kw.arg] = kw.value
             ftype = {py: ft for py, _, ft in table}
-            return self.build(n, ctor, {py: self.ex(a, env, want=ftype[py]) for py, a in given.items()})
+            codes = {py: self.ex(a, env, want=ftype[py]) for py, a in given.items()}
+            codes.update(spread)
+            return self.build(n, ctor, codes)
         bad(n, f"expression {type(n).__name__}: {ast.unparse(n)[:60]}")
+
+    def field_dict(self, v, env, st):
+        """{Gene field: (code, type)} for a dict literal with constant keys or `{n: getattr(g, n) for n in FIELDS}`"""
+        d = {}
+        if isinstance(v, ast.Dict):
+            for k_, e_ in zip(v.keys, v.values):
+                if k_ is None:
+                    # {**other, ...}: later entries override earlier ones, as in Python
+                    d.update(self.all_fields_dict(e_, env, st))
+                    continue
+                ok_, kv = (True, k_.value) if isinstance(k_, ast.Constant) else self.const_of(k_)
+                if not ok_ or not isinstance(kv, str):
+                    bad(st, "dict key is not a constant string")
+                ft = {py: f_ for py, _, f_ in GENE_FIELDS}.get(kv)
+                if ft is None:
+                    bad(st, f"dict key {kv!r} is not a Gene field")
+                d[kv] = self.ex(e_, env, want=ft)
+        else:
+            g0 = v.generators
+            if len(g0) != 1 or g0[0].ifs or g0[0].is_async or not isinstance(g0[0].target, ast.Name):
+                bad(st, "dict comprehension shape")
+            cvn = g0[0].target.id
+            ok_, names = self.const_of(g0[0].iter)
+            if not ok_:
+                try:
+                    names = literal(g0[0].iter)
+                except ValueError:
+                    bad(st, f"dict comprehension over {ast.unparse(g0[0].iter)}")
+            if not (isinstance(names, tuple) and all(isinstance(x, str) for x in names)):
+                bad(st, "dict comprehension over a non-constant")
+            val = v.value
+            if not (isinstance(v.key, ast.Name) and v.key.id == cvn and isinstance(val, ast.Call)
+                    and ast.unparse(val.func) == "getattr" and len(val.args) == 2
+                    and isinstance(val.args[1], ast.Name) and val.args[1].id == cvn):
+                bad(st, "dict comprehension is not {n: getattr(g, n) for n in FIELDS}")
+            c0, t0 = self.ex(val.args[0], env)
+            if t0 != "gene":
+                bad(st, f"getattr on a {t0}")
+            allf = self.gene_fields_of(paren(c0))
+            for nm_ in names:
+                if nm_ not in allf:
+                    bad(st, f"{nm_!r} is not a Gene field")
+                d[nm_] = allf[nm_]
+        return d
+
+    def all_fields_dict(self, e_, env, st):
+        """the operand of a `**` inside a dict display: a field dict (local / literal / comprehension) or ALL fields of a
+        gene (`vars(g)`, `g.__dict__`, `asdict(g)`, `dataclasses.asdict(g)`)"""
+        if isinstance(e_, ast.Name) and env["locals"].get(e_.id, (None, None))[1] == "genedict":
+            return dict(env["locals"][e_.id][0])
+        if isinstance(e_, (ast.Dict, ast.DictComp)):
+            return self.field_dict(e_, env, st)
+        gene_expr = None
+        if isinstance(e_, ast.Call) and ast.unparse(e_.func) in ("vars", "asdict", "dataclasses.asdict") \
+                and len(e_.args) == 1 and not e_.keywords:
+            gene_expr = e_.args[0]
+        elif isinstance(e_, ast.Attribute) and e_.attr == "__dict__":
+            gene_expr = e_.value
+        if gene_expr is not None:
+            c0, t0 = self.ex(gene_expr, env)
+            if t0 != "gene":
+                bad(st, f"all fields of a {t0}")
+            return self.gene_fields_of(paren(c0))
+        bad(st, f"dict unpacking of {ast.unparse(e_)[:40]}")
 
     def cb_test(self, test):
         """`self.on_mutation` / `self.on_mutation is not None` -> True; `not …` / `is None` -> False; else None"""
@@ -657,44 +737,7 @@ class Translator:
                 # a dict of Gene fields, kept symbolically (consumed by Gene(**d))
                 if any(t_ == "genedict" for _, t_ in env["locals"].values()):
                     bad(st, "second field dict")
-                d = {}
-                if isinstance(v, ast.Dict):
-                    for k_, e_ in zip(v.keys, v.values):
-                        if k_ is None:
-                            bad(st, "dict unpacking")
-                        ok_, kv = (True, k_.value) if isinstance(k_, ast.Constant) else self.const_of(k_)
-                        if not ok_ or not isinstance(kv, str):
-                            bad(st, "dict key is not a constant string")
-                        ft = {py: f_ for py, _, f_ in GENE_FIELDS}.get(kv)
-                        if ft is None:
-                            bad(st, f"dict key {kv!r} is not a Gene field")
-                        d[kv] = self.ex(e_, env, want=ft)
-                else:
-                    g0 = v.generators
-                    if len(g0) != 1 or g0[0].ifs or g0[0].is_async or not isinstance(g0[0].target, ast.Name):
-                        bad(st, "dict comprehension shape")
-                    cvn = g0[0].target.id
-                    ok_, names = self.const_of(g0[0].iter)
-                    if not ok_:
-                        try:
-                            names = literal(g0[0].iter)
-                        except ValueError:
-                            bad(st, f"dict comprehension over {ast.unparse(g0[0].iter)}")
-                    if not (isinstance(names, tuple) and all(isinstance(x, str) for x in names)):
-                        bad(st, "dict comprehension over a non-constant")
-                    val = v.value
-                    if not (isinstance(v.key, ast.Name) and v.key.id == cvn and isinstance(val, ast.Call)
-                            and ast.unparse(val.func) == "getattr" and len(val.args) == 2
-                            and isinstance(val.args[1], ast.Name) and val.args[1].id == cvn):
-                        bad(st, "dict comprehension is not {n: getattr(g, n) for n in FIELDS}")
-                    c0, t0 = self.ex(val.args[0], env)
-                    if t0 != "gene":
-                        bad(st, f"getattr on a {t0}")
-                    allf = self.gene_fields_of(paren(c0))
-                    for nm_ in names:
-                        if nm_ not in allf:
-                            bad(st, f"{nm_!r} is not a Gene field")
-                        d[nm_] = allf[nm_]
+                d = self.field_dict(v, env, st)
                 env = copy.deepcopy(env)
                 env["locals"][tg.id] = (d, "genedict")
                 return self.body(rest, env, ind)
